@@ -83,6 +83,11 @@ Proof. reflexivity. Qed.
 Lemma hint_r_hint n : hint_text n = r_hint n.
 Proof. reflexivity. Qed.
 
+Lemma r_hint_lead_ok n :
+  strip_prefix r_hint_lead (r_hint n)
+  = Some ((if Nat.leb 2 n then B "them" else B "it") ++ B ", re-run tests with `UPDATE_SNAPS=clean go test ./...`").
+Proof. unfold r_hint, r_hint_lead. apply strip_prefix_app. Qed.
+
 (* ====================================================================== *)
 (* Hypothesis on items                                                     *)
 (* ====================================================================== *)
@@ -617,13 +622,13 @@ Proof.
   - cbn [join_wording sec_items wording_of]. rewrite end_lines_zero. reflexivity.
   - cbn [join_wording sec_items wording_of]. destruct upd.
     + rewrite end_lines_true. reflexivity.
-    + rewrite end_lines_false by (cbn [length]; lia). rewrite hint_r_hint, beq_refl. reflexivity.
+    + rewrite end_lines_false by (cbn [length]; lia). rewrite hint_r_hint, r_hint_lead_ok. reflexivity.
   - cbn [join_wording sec_items wording_of]. destruct upd.
     + rewrite end_lines_true. reflexivity.
-    + rewrite end_lines_false by (cbn [length]; lia). rewrite hint_r_hint, beq_refl. reflexivity.
+    + rewrite end_lines_false by (cbn [length]; lia). rewrite hint_r_hint, r_hint_lead_ok. reflexivity.
   - cbn [join_wording sec_items wording_of]. rewrite eqb_reflx. destruct upd.
     + rewrite end_lines_true. reflexivity.
-    + rewrite end_lines_false by (cbn [length]; lia). rewrite hint_r_hint, beq_refl. reflexivity.
+    + rewrite end_lines_false by (cbn [length]; lia). rewrite hint_r_hint, r_hint_lead_ok. reflexivity.
 Qed.
 
 Lemma tail_lines_shape upd files tests : exists r, tail_lines upd files tests ++ [ [] ] = [] :: r.
@@ -841,9 +846,13 @@ Proof. vm_compute. reflexivity. Qed.
 (* the hint is missing in report mode *)
 Example bad_no_hint : read_summary (ex_edit (fun ls => del_nth 14 (del_nth 14 ls))) = None.
 Proof. vm_compute. reflexivity. Qed.
-(* the hint uses the wrong pronoun for 3 items *)
-Example bad_hint_it :
-  read_summary (ex_edit (set_nth 15 (B "To remove it, re-run tests with `UPDATE_SNAPS=clean go test ./...`"))) = None.
+(* how the advice is worded is presentation: a reworded hint reads to the same data; a line that is no hint does not *)
+Example reworded_hint_same_data :
+  read_summary (ex_edit (set_nth 15 (B "To remove it, re-run your tests with `UPDATE_SNAPS=clean go test -count=1 ./...`")))
+  = read_summary (ex_edit (fun ls => ls)).
+Proof. vm_compute. reflexivity. Qed.
+Example bad_hint_other_line :
+  read_summary (ex_edit (set_nth 15 (B "Remove them with `UPDATE_SNAPS=clean go test ./...`"))) = None.
 Proof. vm_compute. reflexivity. Qed.
 (* the hint is present although the lists say "removed" *)
 Example bad_hint_removed :
